@@ -170,7 +170,7 @@ impl Property for C09 {
             Phase::Enumerate { name: "asset-self-test", total: 6, exhaustive: false, gen: Arc::new(|i| Some(C09Case::Asset { idx: i as u8, ops: vec![] })) },
             Phase::Random {
                 name: "built",
-                cases: tier.pick(2_500, 200_000),
+                cases: tier.pick(8_000, 200_000),
                 strat: Arc::new(|| {
                     (config_any(CfgParams { max_files: 8, sizes: size_small(), comp: comp_mixed(), sign_prob: 0.2, file_kinds: true, force_large_prob: 0.15, rich_meta: true }), prop_oneof![2 => Just(vec![]), 1 => proptest::collection::vec(op_cheap(), 1..4)])
                         .prop_map(|(mut cfg, ops)| {
@@ -184,7 +184,7 @@ impl Property for C09 {
             },
             Phase::Random {
                 name: "asset-histories",
-                cases: tier.pick(300, 20_000),
+                cases: tier.pick(1_000, 20_000),
                 strat: Arc::new(|| (0u8..5, proptest::collection::vec(op_cheap(), 1..4)).prop_map(|(idx, ops)| C09Case::Asset { idx, ops }).boxed()),
             },
         ]
